@@ -57,7 +57,11 @@ def evaluate(case, oracles, res=None, model=None, count=True):
         return ('refused' if info['refused'] else 'crash'), viols, info
     ctx = Ctx(cfg, steps, model, impl)
     try:
-        ctx.image = impl.write()
+        from mc.vdev import RecFile
+        sink = RecFile()
+        impl.iso.write_fp(sink)
+        ctx.image = sink.getvalue()
+        ctx.writelog = sink.writes
     except Exception as e:
         t, site = explore.exc_site(e)
         viols.append({'clause': 'write_fp succeeds', 'cls': '%s@%s' % (t, site),
@@ -118,9 +122,53 @@ def make_tasks(cfgs, profile, depth, k):
     return tasks
 
 
+def make_alpha_tasks(cfgs, name, alpha, depth, k):
+    tasks = []
+    for cfg in cfgs:
+        kk = min(k, depth)
+        shallow, roots = explore.shards(cfg, alpha, kk)
+        tasks.append({'cfg': cfg, 'profile': name, 'alpha': name, 'depth': depth, 'shallow': shallow})
+        for r in roots:
+            tasks.append({'cfg': cfg, 'profile': name, 'alpha': name, 'depth': depth, 'root': r})
+    return tasks
+
+
+def make_chain_tasks(cfgs, tier):
+    tasks = []
+    for cfg in cfgs:
+        for name, chain in ops.chains_for(cfg, tier):
+            tasks.append({'cfg': cfg, 'chain': name, 'ops': chain, 'profile': 'chain', 'depth': len(chain)})
+    return tasks
+
+
+def run_chain(task, oracles, res):
+    cfg = task['cfg']
+    chain = task['ops']
+    res.add('chains', '%s/%s' % (cfg_name(cfg), task['chain']))
+    bad = 0
+    for i in range(1, len(chain) + 1):
+        steps = [[op] for op in chain[:i]]
+        case = {'cfg': cfg, 'steps': steps}
+        status, viols, info = evaluate(case, oracles, res, count=True)
+        res.count('chain_prefixes')
+        for v in viols:
+            res.violation(v['clause'], v['cls'], v['msg'], case)
+        if status in ('refused', 'crash'):
+            res.count('chain_cut')
+            res.note('chain_cut_at', '%s/%s op %d %s: %s' % (cfg_name(cfg), task['chain'], i, info['op'][0], str(info['exc'])[:60]))
+            break
+        if status == 'violation':
+            bad += 1
+            if bad >= 3:
+                break
+
+
 def run_task(task, oracles, alphabet=None):
     res = Result()
     cfg = task['cfg']
+    if 'chain' in task:
+        run_chain(task, oracles, res)
+        return res
     profile = task['profile']
     alpha = alphabet or (lambda m: ops.sigma1(m, profile))
     visit = make_visit(oracles)
